@@ -315,4 +315,14 @@ def Lib.stepRecords (l : Lib) (env : Env) : List Raw → Lib × Env × Out × Li
     let rest := Lib.stepRecords h.lib h.env rs
     (rest.1, rest.2.1, h.out.append rest.2.2.1, h.br :: rest.2.2.2)
 
+/-- one `Read` of the inotify file as the top of the `readEvents` loop sees it: nothing read is reported as
+`io.EOF`, fewer bytes than one header as a short read — each on Errors, and the loop goes on with the
+tables untouched; otherwise the records are handled (the decode loop is `Model/Decode`) -/
+def Lib.stepRead (l : Lib) (env : Env) (bs : List Nat) : Lib × Env × Out × List Branch :=
+  if bs.length = 0 then (l, env, { errors := [.errno "other:EOF"] }, [])
+  else if bs.length < 16 then (l, env, { errors := [.errno "other:notify:_short_read_in_readEvents()"] }, [])
+  else match decodeBuf bs with
+    | .ok recs => l.stepRecords env recs
+    | .outOfBounds recs => l.stepRecords env recs
+
 end Fsn
